@@ -112,8 +112,21 @@ def es_stage(ctx, recs):
         for later, dq, retry in variants:
             cases.append({"idx": len(cases), "n": s["n"], "split": s["split"], "script": s["script"], "later": later,
                           "dq": dq, "retry": retry, "result": s["result"]})
+    ctx.tlc_expect_ok("GiveUpHandover", "GiveUpHandover_ok.cfg", deadlock=False, timeout=900, workers=2, name="GiveUpHandover: batch object given up, then refilled")
+    gm = ctx.tlc("GiveUpHandover", "GiveUpHandover_mut.cfg", deadlock=False, timeout=900, workers=2, name="GiveUpHandover mutant: hand-over in the background")
+    if gm.ok or gm.violated != "DeadQueueGetsTheBatch":
+        raise vlib.Infra("spec mutant M_HandoverBeforeRelease=FALSE is not rejected (ok=%s %s)" % (gm.ok, gm.violated))
+    # a second batch right behind a batch that is being given up to a SLOW dead queue (one worker = one batch object: the second
+    # batch is collected in the object the first one has just left).  What the dead queue receives are the events of the first
+    # batch, whatever happens to the batch object meanwhile; the second batch is delivered and committed.
+    follow = []
+    for n in (2, 3, 4):
+        for k in range(2 if quick else 6):
+            ids = list(range(1, n + 1))
+            follow.append({"idx": len(cases) + len(follow), "n": n, "split": False, "script": [{"ids": ids, "ans": "unavailable"}], "later": "same",
+                           "dq": True, "retry": 0 if k % 2 == 0 else 1, "result": "err", "follow": n + 1})
     binary = ctx.c09o_builds[ES_PKG].result()
-    out, crash = run_harness(ctx, binary, "^TestVerifC09ES$", cases, "es")
+    out, crash = run_harness(ctx, binary, "^TestVerifC09ES$", cases + follow, "es")
     if crash:
         recs.append(crash)
         return {"scripts": len(scripts), "runs": 0, "crashed": True}
@@ -143,6 +156,19 @@ def es_stage(ctx, recs):
         ctx.traces_validated += 1
         if expect_fail:
             shapes.add((json.dumps(want), c["later"], c["dq"], c["retry"]))
+    for c in follow:
+        log = out[c["idx"]]
+        first = list(range(1, c["n"] + 1))
+        second = list(range(c["n"] + 1, c["n"] + c["follow"] + 1))
+        dqs = [e["id"] for e in log if e["t"] == "dq"]
+        commits = [e["id"] for e in log if e["t"] == "commit"]
+        base = {"stage": "es", "sink": "elasticsearch", "case": {k: c[k] for k in ("n", "retry", "follow")}}
+        if any(e["t"] == "timeout" for e in log):
+            recs.append(dict(base, kind="es_follow_hang", dq=dqs, commits=commits))
+        elif sorted(dqs) != first or sorted(commits) != second:
+            recs.append(dict(base, kind="es_dead_queue_got_other_events", dq=dqs, commits=commits, want_dq=first, want_commits=second))
+        ctx.evaluations += 1
+        ctx.traces_validated += 1
     if drift:
         vlib.log("MODEL-DRIFT: elasticsearch retried %d script(s) the transcription classifies as success/drop" % drift)
         ctx.drift += drift
